@@ -177,7 +177,7 @@ pub fn value_to_tokens(value: &ASN1Value) -> Result<String, GeneratorError> {
                 s.pop();
                 s + "\""
             }),
-        ASN1Value::Time(_) => todo!(),
+        ASN1Value::Time(t) => Ok(format!(r#""{t}""#)),
         ASN1Value::LinkedArrayLikeValue(seq) => seq
             .iter()
             .try_fold(String::from("["), |mut acc, v| {
